@@ -8,6 +8,7 @@ broadcast / server address, pairwise distinct; lookup returns a live logged-in o
 there is none; allocation hands out free slots only and exactly `count` sessions."""
 import os, sys
 import vlib
+import srvlib
 
 USERS = 16          # property text: min(16, subnet size - 3)
 TIMEOUT = 60        # property text / DESIGN: "last_pkt + 60 > now"
@@ -321,7 +322,7 @@ def run_all(rep, ctx, cases):
 
 def check(rep):
     import mainlib
-    ctx = vlib.prepare(rep, harnesses={'pure': vlib.pure_harness('C18'), 'srvmain': mainlib.SRVMAIN}, sanitize=(rep.tier == 'thorough'))
+    ctx = vlib.prepare(rep, harnesses={'pure': vlib.pure_harness('C18'), 'srvmain': mainlib.SRVMAIN, 'srv': srvlib.SRV}, sanitize=(rep.tier == 'thorough'))
     cases, stats = gen_cases(rep.seed, rep.tier)
     rep.cov['rule'] = ('corpus first; init_users: every netmask 8..30 x 8 base addresses x boundary host positions (0..20, around '
                        'usercount, first/last host, network and broadcast position, 255/256/257, 65535..65537) + random positions, '
@@ -339,9 +340,109 @@ def check(rep):
     rep.cov['exhaustive_part'] = ('host positions of %s; everything else sampled' % stats['exhaustive_netmasks'])
     run_all(rep, ctx, cases)
     startup_stage(rep, ctx)
+    login_reply_stage(rep, ctx)
     if not rep.violations:
         ctx.report_broken()
     return rep
+
+
+def login_reply_stage(rep, ctx):
+    """the address a session is assigned is what the server TELLS the client in the login reply "server-client-mtu-netmask":
+    every slot of a server is taken and logged in through the real 'V' and 'L' handlers (server-history harness); the client
+    addresses read from the replies must be distinct host addresses of the server's subnet, none the server's own, the network
+    or the broadcast address, the server field the server's address and the netmask field the configured one; then model ==
+    implementation per event.  Server addresses include ones whose dotted form has the full 15 characters."""
+    if 'srv' not in ctx.exe:
+        return
+    import re
+    rng = vlib.rng_for(rep.seed, 'c18-login')
+    cfgs = []
+    for ip in ('10.0.0.1', '192.168.100.200', '172.116.200.129', '100.100.100.100', '203.113.255.254', '10.9.8.7', '255.255.255.129', '198.51.100.130'):
+        for nb in (8, 16, 24, 25, 27, 28, 29, 30):
+            cfgs.append((ip, nb))
+    if rep.tier == 'quick':
+        cfgs = [c for k, c in enumerate(cfgs) if k % 2 == 0 or c[0] in ('192.168.100.200', '100.100.100.100')]
+    hs, meta = [], []
+    for ip, nb in cfgs:
+        g = srvlib.HistGen(rng, adversarial=0.0)
+        g.no_case_relay = True
+        g.set_net(ip, nb)
+        g.qtype = rng.choice(g.QTYPES)
+        logins = {}
+        for k in range(g.nusers):
+            s = srvlib.Session(g, (4, bytes([192, 0, 2, 20 + k]), 5000 + k))
+            g.version(s)
+            g.login(s)
+            logins[len(g.events) - 1] = '2:%s:%d' % (s.addr[1].hex(), s.addr[2])
+        hs.append('H ' + g.cfg() + ' ; ' + ' ; '.join(g.events))
+        meta.append((ip, nb, logins, g.mtu))
+    os.environ['VERIF_FULL'] = '1'
+    try:
+        rc, impl, err = vlib.parallel_run_cases(ctx.exe['srv'], hs, ctx.work, 'loginreply-impl')
+        ok, model, lg = vlib.build_model_driver('SRV')
+        mod = None
+        if ok:
+            rc2, mod, err2 = vlib.parallel_run_cases(model, hs, ctx.work, 'loginreply-model')
+    finally:
+        os.environ.pop('VERIF_FULL', None)
+    if rc != 0:
+        ctx.broken.append(('impl-crash', 'server history harness exited with %d: %s' % (rc, err[-300:])))
+    send_re = re.compile(r'^(\d+):([0-9a-f]*):(\d+)=([0-9a-f]+|-)\{(-?\d+):([0-9a-f]*|-)\}$')
+    nrep = 0
+    for h, (ip, nb, logins, mtu), o in zip(hs, meta, impl):
+        segs = o.split(' ; ')
+        a, b, c, d = [int(x) for x in ip.split('.')]
+        host = (a << 24) | (b << 16) | (c << 8) | d
+        size = 1 << (32 - nb)
+        net = host - host % size
+        seen = {}
+        bad = None
+        for idx, who in logins.items():
+            txt = None
+            for t in (segs[idx] if idx < len(segs) else '').split(' | ')[0].split(' ')[1:]:
+                m = send_re.match(t)
+                if m and '%s:%s:%s' % (m.group(1), m.group(2), m.group(3)) == who and m.group(6) not in ('-', ''):
+                    txt = bytes.fromhex(m.group(6))
+            f = txt.split(b'-') if txt else []
+            try:
+                srv_a, cli_a = [sum(int(x) << s for x, s in zip(p.split(b'.'), (24, 16, 8, 0))) if p.count(b'.') == 3 else None for p in f[:2]]
+                got_mtu, got_nb = int(f[2]), int(f[3])
+            except Exception:
+                bad = (idx, 'the login reply %r is not "server-client-mtu-netmask"' % txt)
+                break
+            nrep += 1
+            why = None
+            if srv_a != host:
+                why = 'server field %r is not the server address %s' % (f[0], ip)
+            elif cli_a is None or not (net < cli_a < net + size - 1):
+                why = 'client address %r is not a host address of %s/%d' % (f[1], ip, nb)
+            elif cli_a == host:
+                why = 'client address %r is the server\'s own' % f[1]
+            elif cli_a in seen:
+                why = 'client address %r was already given to the session of event %d' % (f[1], seen[cli_a])
+            elif got_nb != nb or got_mtu != mtu:
+                why = 'mtu/netmask fields %r-%r, configured %d-%d' % (f[2], f[3], mtu, nb)
+            if why:
+                bad = (idx, why)
+                break
+            seen[cli_a] = idx
+        if bad:
+            idx, why = bad
+            evs = h.split(' ; ')
+            rep.add_violation('login-reply:address', 'server %s/%d, login of the session %s: %s' % (ip, nb, logins[idx], why),
+                              dict(kind='history', driver='srv', case=' ; '.join(evs[:idx + 2]), event=idx, observed=(segs[idx] if idx < len(segs) else '')[:600]))
+            break
+    if mod is not None:
+        dd = vlib.first_diff(hs, impl, mod)
+        if dd is not None:
+            ea, eb = impl[dd].split(' ; '), mod[dd].split(' ; ')
+            k = next((j for j, (x, y) in enumerate(zip(ea, eb)) if x != y), min(len(ea), len(eb)))
+            ctx.broken.append(('correspondence', 'login-reply stage: server model and the real server disagree at event %d of %r: impl=%r model=%r' % (
+                k, hs[dd][:1500], ea[k][:300] if k < len(ea) else '', eb[k][:300] if k < len(eb) else '')))
+    rep.cov['login_replies'] = dict(servers=len(hs), replies_checked=nrep)
+    rep.cov['evaluations'] = rep.cov.get('evaluations', 0) + sum(h.count(' ; ') for h in hs)
+    rep.cov['rule'] += ('. Login-reply stage: %d servers (addresses with 7..15 characters in dotted form x netmasks 8..30), every slot taken and logged '
+                        'in through the real handlers: the client address in each reply is a distinct host address of the subnet, not the server\'s' % len(hs))
 
 
 def startup_stage(rep, ctx):
